@@ -25,8 +25,8 @@ func (w *World) memoryOracle() {
 	// that is just merging its local counters makes one reading count a node twice. Only a
 	// persistent difference is an accounting error.
 	d := w.Stats()
-	for try := 0; try < 50 && d.MemoryUsed != want; try++ {
-		time.Sleep(200 * time.Microsecond)
+	for try := 0; try < 3000 && d.MemoryUsed != want; try++ {
+		time.Sleep(time.Millisecond)
 		d = w.Stats()
 	}
 	if d.MemoryUsed != want {
